@@ -585,7 +585,19 @@ func c08GenRec(r *Rng, tier string, idx int) Case {
 
 func c08RunRec(t *testing.T, ops []string, o *Out) {
 	rec := rfc8888.NewRecorder()
+	// a report BuildReport returned is the caller's: kept by pointer, re-rendered after every later op (retain_test.go)
+	defer o.EndKept()
+	nRep := 0
+	build := func(at time.Time, mx int) *rtcp.CCFeedbackReport {
+		rep := rec.BuildReport(at, mx)
+		nRep++
+		if rep != nil {
+			o.KeepRTCP(fmt.Sprintf("report#%d", nRep), rep)
+		}
+		return rep
+	}
 	for _, op := range ops {
+		o.CheckKept()
 		var at int64
 		var ssrc uint32
 		var seq uint16
@@ -596,7 +608,7 @@ func c08RunRec(t *testing.T, ops []string, o *Out) {
 		case scan(op, "add at=%d ssrc=%d seq=%d ecn=%d", &at, &ssrc, &seq, &ecn) && len(strings.Fields(op)) == 5:
 			rec.AddPacket(time.Unix(0, at), ssrc, seq, ecn)
 		case scan(op, "build at=%d max=%d", &at, &mx) && len(strings.Fields(op)) == 3:
-			c08ShowReport(o, rec.BuildReport(time.Unix(0, at), mx))
+			c08ShowReport(o, build(time.Unix(0, at), mx))
 		case scan(op, "addrun at=%d ssrc=%d seq=%d n=%d step=%d ecn=%d", &at, &ssrc, &seq, &n, &step, &ecn) &&
 			len(strings.Fields(op)) == 7 && n >= 0 && n <= 200000:
 			for i := 0; i < n; i++ {
@@ -605,7 +617,7 @@ func c08RunRec(t *testing.T, ops []string, o *Out) {
 		case scan(op, "buildrun at=%d n=%d step=%d max=%d", &at, &n, &step, &mx) &&
 			len(strings.Fields(op)) == 5 && n >= 0 && n <= 5000:
 			for i := 0; i < n; i++ {
-				c08ShowReport(o, rec.BuildReport(time.Unix(0, at+int64(i)*step), mx))
+				c08ShowReport(o, build(time.Unix(0, at+int64(i)*step), mx))
 			}
 		default:
 			o.P("bad-op")
@@ -801,13 +813,21 @@ func c08RunInt(t *testing.T, ops []string, o *Out) {
 			pending []byte
 			blocked []chan struct{}
 		)
+		// every packet handed to the RTCP writer is the writer's (it may queue it): kept by pointer and re-rendered
+		// after every later op, before Close and after Close (retain_test.go)
+		defer o.EndKept()
 		defer func() {
+			o.CheckKeptAll()
 			if icpt != nil {
 				_ = icpt.Close()
+				synctest.Wait()
 			}
 		}()
+		nWritten := 0
 		writer := interceptor.RTCPWriterFunc(func(pkts []rtcp.Packet, _ interceptor.Attributes) (int, error) {
 			for _, p := range pkts {
+				nWritten++
+				o.KeepRTCP(fmt.Sprintf("written#%d", nWritten), p)
 				if rep, ok := p.(*rtcp.CCFeedbackReport); ok {
 					reports = append(reports, rep)
 				} else {
@@ -838,6 +858,7 @@ func c08RunInt(t *testing.T, ops []string, o *Out) {
 			reports = nil
 		}
 		for _, op := range ops {
+			o.CheckKept()
 			var a, b int
 			withSkew := len(strings.Fields(op)) == 3 && scan(op, "cfg interval=%d skew=%d", &a, &b) &&
 				b >= -3000000000000 && b <= 1130000000000
